@@ -298,3 +298,115 @@ void h_get_task_lc(void) {
     VACUITY_END();
 }
 #endif
+
+#if defined(THE_OWNER) || defined(THE_THIEF)
+/* Owner/thief arbitration on head and tail (the THE protocol): for ONE arbitrary slot k of a published pool, the task in it is handed out at most once - by the owner's
+   get_task or by a thief's steal_task - under every interleaving (SC) of the owner with any number of thieves (thieves are serialised by the pool lock, proved in lock.*).
+   Ghost state for slot k: hole (slot empty: physical), cO / cT (its task was handed to the owner / a thief),
+   oPh (owner: 0 idle, 1 lowered tail to k, 2 won the arbitration for k), th_t / th_c (the lock-holding thief: bumped head over k / passed the tail check for k).
+   Each job runs ONE side's real code; the other side is the interference: a havoc constrained by INV and by a two-state rely, and every step of the real code is
+   checked against the two-state guarantee the other job relies on. */
+typedef struct task task;
+typedef struct execution_data_ext { slot_id affinity_slot; } execution_data_ext;
+struct arena { bool my_mailbox_idle; };
+struct aslot { size_t head, tail; task **task_pool_ptr; bool published; };
+static struct aslot S; int L; bool hole, cO, cT, th_t, th_c, me_took, elig_k; int oPh; size_t g_k; isolation_type g_isoarg, g_iso_k;
+#define SK ((intptr_t)g_k)
+#define SH ((intptr_t)S.head)
+#define ST ((intptr_t)S.tail)
+#define INV ((L == 0 || L == 1 || L == 2) && (oPh == 0 || oPh == 1 || oPh == 2) && !(th_t && th_c) \
+  && ((th_t || th_c) ? (L == 2 && SH >= SK + 1) : 1) && (S.published ? 1 : (L == 0 && !th_t && !th_c)) \
+  && (oPh >= 1 ? ST <= SK : 1) && ((oPh == 2 && !hole) ? (!cT && !th_c) : 1) && !(cO && cT) \
+  && (cT ? (SH >= SK + 1 || hole || (ST <= SK && oPh == 0)) : 1) && (cO ? (ST <= SK || hole || (SH >= SK + 1 && !th_t && !th_c)) : 1) \
+  && SH >= 0 && SH < ((intptr_t)1 << 41) && ST >= -1 && ST < ((intptr_t)1 << 41))
+static task *const POOL_TOKEN = (task *)(uintptr_t)8;
+#define TASKPTR(i) ((task *)(((uintptr_t)(i) + 1) << 4))
+#define TIDX(p) ((size_t)(((uintptr_t)(p)) >> 4) - 1)
+#define TASK_ISOLATION(p) (TIDX(p) == g_k ? g_iso_k : nondet_size_t())
+#define TASK_IS_PROXY(p) false
+#define TASK_SLOT(p) ((slot_id)0)
+static void STUB_advertise_new_work(void) {}
+#endif
+
+#if defined(THE_OWNER) || defined(THE_THIEF)
+/* the library's own debug assertions about head/tail consistency (compiled out of the tested build) are not part of this job: they are obligations of pool.get_task.any_size / pool.steal_task */
+#undef VERIF_ASSERT
+#define VERIF_ASSERT(c, m) ((void)0)
+#endif
+
+#ifdef THE_OWNER
+/* rely: what thieves may do between two steps of the owner */
+static void interfere(void) {
+    size_t oh = S.head; int oL = L; bool ohole = hole, ocT = cT, oth_t = th_t, oth_c = th_c;
+    if (L == 1 || !S.published) return;                                         /* the owner holds the lock, or no thief can enter: nothing moves */
+    S.head = nondet_size_t(); L = nondet_int(); hole = nondet_bool(); cT = nondet_bool(); th_t = nondet_bool(); th_c = nondet_bool();
+    __CPROVER_assume(INV && L != 1);
+    __CPROVER_assume((ohole ? hole : 1) && (ocT ? cT : 1));
+    __CPROVER_assume((cT && !ocT) ? (ST >= SK + 1 && !ohole) : 1);            /* a thief takes slot k only after seeing tail beyond it */
+    __CPROVER_assume((th_c && !oth_c) ? ST >= SK + 1 : 1);
+    __CPROVER_assume((hole && !ohole) ? cT : 1);                                /* a thief only empties the slot it took */
+    __CPROVER_assume(((intptr_t)oh >= SK + 1 && !oth_t && !oth_c) ? (SH >= SK + 1 && !th_t && !th_c) : 1);   /* a slot already below head stays below head: thieves roll head back only to where they found it */
+}
+/* guarantee of every owner step, as relied on by the thief job */
+#define OWNER_STEP(site, T, op) ({ interfere(); size_t oh_ = S.head, ot_ = S.tail; int oL_ = L, oP_ = oPh; bool ohole_ = hole, ocO_ = cO, ocT_ = cT, ot_t_ = th_t, ot_c_ = th_c, opub_ = S.published; T r_ = (op); GHOST_##site; \
+   __CPROVER_assert(INV, "guarantee: arbitration invariant for slot k re-established at " #site); \
+   __CPROVER_assert(oL_ == 2 ? (S.head == oh_ && L == 2 && S.published == opub_) : 1, "guarantee: the owner does not move head, take the lock or leave while a thief holds the pool lock, at " #site); \
+   __CPROVER_assert(cT == ocT_ && th_t == ot_t_ && th_c == ot_c_, "guarantee: the owner does not touch the thief's ghost state, at " #site); \
+   __CPROVER_assert((oPh == 2 && oP_ != 2) ? (intptr_t)oh_ <= SK || oL_ == 1 : 1, "guarantee: the owner wins slot k only by reading head <= k after lowering tail to k (or under the lock), at " #site); \
+   r_; })
+#define ATOMIC_LOAD_AT(site, f) OWNER_STEP(site, size_t, (f))
+#define ATOMIC_STORE_AT(site, f, v) OWNER_STEP(site, size_t, ((f) = (v)))
+#define ATOMIC_PREDEC_AT(site, f) OWNER_STEP(site, size_t, (--(f)))
+#define NOG ((void)0)
+#define GHOST_gt_LOAD_1 NOG
+#define GHOST_gt_PREDEC_1 if ((intptr_t)r_ == SK) oPh = 1
+#define GHOST_gt_LOAD_2 if (oPh == 1 && (intptr_t)r_ <= SK) oPh = 2
+#define GHOST_gt_LOAD_3 if (oPh == 1 && (intptr_t)r_ <= SK) oPh = 2
+#define GHOST_gt_LOAD_4 NOG
+#define GHOST_gt_LOAD_5 NOG
+#define GHOST_gt_LOAD_6 NOG
+#define GHOST_gt_LOAD_7 NOG
+#define GHOST_gt_STORE_1 if (oPh == 1) oPh = 0                         /* reset: tail = 0 - the owner gives up a slot it did not win */
+#define GHOST_gt_STORE_2 NOG                                          /* reset: head = 0 */
+#define GHOST_gt_STORE_3 NOG                                          /* restore head */
+#define GHOST_gt_STORE_4 oPh = 0                                      /* restore tail: the owner is done with every slot it examined */
+#define GHOST_gt_STORE_5 oPh = 0
+static task *pool_rd(task **vp, size_t i) {
+    if (i != g_k) return nondet_bool() ? NULL : TASKPTR(i);
+    __CPROVER_assert(oPh == 2, "C01.THE: the owner reads slot k only after it has won the arbitration for k (tail lowered to k, then head seen <= k or the lock held)");
+    if (!hole && elig_k) { __CPROVER_assert(!cT, "C01.once: the owner takes the task in slot k only if no thief has taken it"); cO = true; me_took = true; }
+    return hole ? NULL : TASKPTR(i);
+}
+static void pool_wr(task **vp, size_t i, task *v) { __CPROVER_assert(v == NULL, "C01.pool: popping only ever writes holes"); if (i == g_k) { __CPROVER_assert(oPh == 2, "C01.THE: the owner empties slot k only after winning it"); hole = true; } }
+#define POOL_RD(vp, i) pool_rd((vp), (i))
+#define POOL_WR(vp, i, v) pool_wr((vp), (i), (v))
+static void slot_acquire_task_pool(struct aslot *s) { interfere(); if (!s->published) return; __CPROVER_assume(L == 0); L = 1; __CPROVER_assert(INV, "guarantee: INV after acquire"); }
+static void slot_release_task_pool(struct aslot *s) { if (!s->published) return; __CPROVER_assert(L == 1, "C01.THE: the owner releases a lock it holds"); L = 0; }
+static void slot_leave_task_pool(struct aslot *s) { __CPROVER_assert(L == 1 && s->head == s->tail, "C01.THE: the pool is left only locked and empty"); s->published = false; L = 0; __CPROVER_assert(INV, "guarantee: INV after leave"); }
+static void slot_publish_task_pool(struct aslot *s) { __CPROVER_assert(!s->published && L == 0, "C01.THE: publish only an unpublished pool"); s->published = true; __CPROVER_assert(INV, "guarantee: INV after publish"); }
+static bool slot_is_task_pool_published(struct aslot *s) { return s->published; }
+static bool slot_is_quiescent_local_task_pool_reset(struct aslot *s) { return s->head == 0 && s->tail == 0; }
+static task *STUB_proxy_extract_task_pool(task *tp) { return NULL; }
+static void STUB_delete_proxy(task *tp) {}
+#define LOOP_get_task_1 __CPROVER_assigns(T, T0, H0, result, task_pool_empty, tasks_omitted, S.head, S.tail, S.published, L, hole, cO, cT, th_t, th_c, oPh, me_took, ed->affinity_slot) \
+  __CPROVER_loop_invariant(INV && S.tail == T && S.published && L != 1 && result == NULL && !task_pool_empty && !me_took && ((intptr_t)T <= SK && SK < (intptr_t)IN_tail ? oPh == 2 : oPh == 0) && (intptr_t)T <= (intptr_t)T0 && (intptr_t)T0 <= (intptr_t)IN_tail \
+     && ((cO && !hole) ? (SK >= (intptr_t)T0 || (SH >= SK + 1 && !th_t && !th_c)) : 1) \
+     && (intptr_t)T >= 0 && (intptr_t)T0 < ((intptr_t)1 << 40) && (tasks_omitted ? 1 : T0 == T))
+size_t IN_head, IN_tail, IN_k;
+#include "get_task_the.inc"
+void h_the_owner(void) {
+    S.task_pool_ptr = (task **)POOL_TOKEN; S.published = true; S.head = IN_head = nondet_size_t(); S.tail = IN_tail = nondet_size_t(); g_k = IN_k = nondet_size_t();
+    __CPROVER_assume(g_k < ((size_t)1 << 40) && ST >= 0 && ST < ((intptr_t)1 << 40) && SH >= 0 && SH < ((intptr_t)1 << 40));
+    L = nondet_int(); hole = nondet_bool(); cO = nondet_bool(); cT = nondet_bool(); th_t = nondet_bool(); th_c = nondet_bool(); oPh = 0; me_took = false;
+    g_isoarg = nondet_size_t(); g_iso_k = nondet_size_t(); elig_k = (g_isoarg == no_isolation || g_isoarg == g_iso_k);
+    __CPROVER_assume(INV && L != 1);
+    execution_data_ext ed; ed.affinity_slot = 0;
+    task *r = slot_get_task(&S, &ed, g_isoarg);
+    oPh = 0;
+    OBLIGATION(INV, "C01.THE: the arbitration invariant holds when get_task returns");
+    OBLIGATION((r == TASKPTR(g_k)) == me_took, "C01.once: get_task returns the task of slot k exactly when the owner took it under the protocol");
+    OBLIGATION(!(cO && cT), "C01.once: the task in slot k is handed out at most once - never to the owner and to a thief");
+    OBLIGATION(L != 1, "C01.THE: the owner does not keep the pool lock");
+    VACUITY_END();
+}
+#endif
